@@ -258,6 +258,17 @@ def parse_clafer(text):
     instance = None
     stack = []
     mode = None
+    # the feature hierarchy is the abstract clafer the instance line (last top-level `X : Y`) instantiates; another
+    # top-level abstract clafer, whatever its name, is the helper that declares the attributes
+    root_spelling = None
+    for raw in lines:
+        m = re.match(rf'^({_NAME})\s*:\s*({_NAME})\s*$', raw) if raw and raw[0] not in "\t[" and not raw.startswith("abstract ") else None
+        if m:
+            root_spelling = m.group(2)
+    tops = [ln[len("abstract "):].strip() for ln in lines if ln.startswith("abstract ")]
+    if len(tops) != len(set(t.split(":")[0].strip() for t in tops)):
+        raise ParseError(f"two top-level abstract clafers with one name: {tops}")
+    attr_block = None
     for raw in lines:
         if not raw.strip():
             continue
@@ -265,10 +276,11 @@ def parse_clafer(text):
         depth = len(raw) - len(body)
         if depth == 0 and body.startswith("abstract "):
             rest = body[len("abstract "):].strip()
-            if rest == "AttributedFeature":
+            m = _CLAFER_LINE.match(rest)
+            if m and m.group(2) != root_spelling and m.group(4) is None and attr_block is None:
+                attr_block = m.group(2)
                 mode = "attrdecl"
                 continue
-            m = _CLAFER_LINE.match(rest)
             if not m:
                 raise ParseError(f"bad abstract clafer line {raw!r}")
             if root is not None:
@@ -315,7 +327,8 @@ def parse_clafer(text):
         stack.append((depth, node))
     if root is None:
         raise ParseError("no abstract feature hierarchy")
-    return {"root": root, "attr_decls": attr_decls, "constraints": constraints, "instance": instance, "problems": problems}
+    return {"root": root, "attr_decls": attr_decls, "constraints": constraints, "instance": instance, "problems": problems,
+            "attr_block": attr_block}
 
 
 def parse_clafer_expr(s):
